@@ -91,7 +91,7 @@ CHECKS = {
         'is at most failable_evals (none for a single sample), otherwise grade 0 / ok False; absolute tolerance is |expected-student| <= t with the boundary included, percentage tolerance is relative to |expected|, Frobenius norm for arrays, an infinity matches only itself; '
         'identical values always earn the answer\'s credit (any tolerance >= 0) and missing at every sample earns nothing when failable_evals < samples (the necessity of that hypothesis is a theorem too). '
         'Tie: within_tolerance on dyadic grids (real, complex, infinite, vector, matrix; exact boundary cases) and Formula/Numerical/Matrix grader calls with scripted samples whose recorded per-sample evaluations are handed to the model; verdict, credit and message compared exactly; '
-        'the author\'s recorded value is checked against an exact evaluation of the formula on the same scripted sample (same-sample pairing).',
+        'the author\'s recorded value is checked against an exact evaluation of the formula on the same scripted sample (same-sample pairing). The whole pipeline (both strings parsed and evaluated on every scripted sample by the Lean evaluator, compared, consolidated) is a model of its own (FormulaPipe) with theorems pipeline_same_sample / pipeline_equal_values_full_credit and an exact whole-call correspondence for scalar rational formulas.',
    note=PROOF_NOTE + ' Partial: evaluating the two formulas in floating point is outside the model (their per-sample values are inputs); a guard band of relative width 1e-9 around the tolerance boundary is excluded where the float computation of the norm/product is not exact (counted in the evidence).',
    technique='Lean 4 proof (loop invariant of the failure counter, squared-norm characterisation of the tolerance test) + correspondence on recorded samples', design='§6 C04'),
  'C19': dict(
